@@ -202,7 +202,7 @@ Theorem C14_v1_justified_means : forall (H1 : bytes -> bytes) (fm : filemap) (no
   exists piece paths chosen, In (piece, paths) nodes /\ valid_choice fm paths chosen /\
     H1 (choice_bytes paths chosen) = piece /\ In (pn, (l, data)) (combine paths chosen) /\
     In pn paths /\ indexed fm (pn_filename pn) (l, data) /\ List.length data = pn_length pn.
-Proof. intros; reflexivity. Qed.
+Proof. exact v1_justified_means. Qed.
 Print Assumptions C14_v1_justified_means.
 
 (* the search directories and the metafiles: no candidate changes, and whatever exists outside the destination (in particular
@@ -286,3 +286,23 @@ Theorem C14_idempotent_v1 : forall (H1 : bytes -> bytes) (dsize : nat) (fm : fil
   rebuild_v1_run dsize H1 fm dest nodes (rebuild_v1_fs dsize H1 fm dest nodes f) = rebuild_v1_run dsize H1 fm dest nodes f.
 Proof. exact rebuild_v1_idempotent. Qed.
 Print Assumptions C14_idempotent_v1.
+
+(* ---------------------------------------------------------------------------------------------- *)
+(* which kinds of filesystem effects the rebuild command can have at all                          *)
+(* (call graph and effect summary REGENERATED from torrentfile/*.py on this run: Gen/GenEffects.v) *)
+(* ---------------------------------------------------------------------------------------------- *)
+From TF Require Import Model.Effects Proofs.EffectsProofs Gen.GenEffects Proofs.EffectsInstance.
+
+(* the certified checker: whenever it accepts, every event of an execution that stays within the summary has an allowed kind *)
+Theorem C14_only_effects_sound : forall allowed g pr roots,
+  only_effects allowed g pr roots = true ->
+  forall tr, within g pr roots tr -> Forall (fun e => In (kind_of e) allowed) tr.
+Proof. exact only_effects_sound. Qed.
+Print Assumptions C14_only_effects_sound.
+
+(* the instance: everything reachable from the rebuild command (and from the code that runs before any command) reads, makes
+   directories and copies -- it never removes, renames, truncates or opens anything for writing *)
+Theorem C14_rebuild_effect_kinds :
+  only_effects [ERead; EMkdir; ECopy] call_graph direct_effects cmd_rebuild = true.
+Proof. exact gen_rebuild_effects. Qed.
+Print Assumptions C14_rebuild_effect_kinds.
